@@ -18,7 +18,6 @@ package rules
 
 import (
 	"errors"
-	"fmt"
 
 	"github.com/rs/zerolog"
 
@@ -187,7 +186,12 @@ func (f *ruleFactory) createExecutePipeline(
 					"an authenticator is defined after some other non authenticator type")
 			}
 
-			authenticator, err := f.hf.CreateAuthenticator(version, id.(string), getConfig(pipelineStep["config"]))
+			mechanismID, conf, err := getMechanismReference(id, pipelineStep["config"])
+			if err != nil {
+				return nil, nil, nil, err
+			}
+
+			authenticator, err := f.hf.CreateAuthenticator(version, mechanismID, conf)
 			if err != nil {
 				return nil, nil, nil, err
 			}
@@ -243,14 +247,17 @@ func (f *ruleFactory) createOnErrorPipeline(
 	for _, ehStep := range ehConfigs {
 		id, found := ehStep["error_handler"]
 		if found {
-			conf := getConfig(ehStep["config"])
+			mechanismID, conf, err := getMechanismReference(id, ehStep["config"])
+			if err != nil {
+				return nil, err
+			}
 
 			condition, err := getExecutionCondition(ehStep["if"])
 			if err != nil {
 				return nil, err
 			}
 
-			handler, err := f.hf.CreateErrorHandler(version, id.(string), conf)
+			handler, err := f.hf.CreateErrorHandler(version, mechanismID, conf)
 			if err != nil {
 				return nil, err
 			}
@@ -338,7 +345,12 @@ func createHandler[T subjectHandler](
 		return nil, err
 	}
 
-	handler, err := creteHandler(version, id.(string), getConfig(configMap["config"]))
+	mechanismID, conf, err := getMechanismReference(id, configMap["config"])
+	if err != nil {
+		return nil, err
+	}
+
+	handler, err := creteHandler(version, mechanismID, conf)
 	if err != nil {
 		return nil, err
 	}
@@ -346,15 +358,28 @@ func createHandler[T subjectHandler](
 	return &conditionalSubjectHandler{h: handler, c: condition}, nil
 }
 
-func getConfig(conf any) config.MechanismConfig {
-	if conf == nil {
-		return nil
+// getMechanismReference returns the id of the referenced mechanism and its rule specific config.
+// Both come from a rule set, which is not under control of heimdall. So unexpected types
+// must result in an error and not in a panic.
+func getMechanismReference(id any, conf any) (string, config.MechanismConfig, error) {
+	mechanismID, ok := id.(string)
+	if !ok {
+		return "", nil, errorchain.NewWithMessagef(heimdall.ErrConfiguration,
+			"unexpected type '%T' for mechanism reference", id)
 	}
 
-	m, ok := conf.(map[string]any)
-	if !ok {
-		panic(fmt.Sprintf("unexpected type for config %T", conf))
+	if conf != nil {
+		if _, ok = conf.(map[string]any); !ok {
+			return "", nil, errorchain.NewWithMessagef(heimdall.ErrConfiguration,
+				"unexpected type '%T' for config of mechanism '%s'", conf, mechanismID)
+		}
 	}
+
+	return mechanismID, getConfig(conf), nil
+}
+
+func getConfig(conf any) config.MechanismConfig {
+	m, _ := conf.(map[string]any)
 
 	return m
 }
